@@ -113,7 +113,7 @@ def schedules(run_dir, k, maxpre, same_version=True):
     return out, res
 
 
-def run_once(tid, progs, schedule, cold, fresh, fp_warm, rng):
+def run_once(tid, progs, schedule, cold, fresh, fp_warm, rng, line_mode=False):
     """progs: {thread: (version, text)}"""
     interned = run_once.interned
     if cold:
@@ -121,8 +121,9 @@ def run_once(tid, progs, schedule, cold, fresh, fp_warm, rng):
     fp0 = sched.fingerprint()[0] if not cold else ''
     run_once.errors = []
     r = sched.Run({t: (lambda v=v, x=x: program(v, x, ('errors', 'tokens'))) for t, (v, x) in progs.items()},
-                  schedule, block=rng.choice([7, 13, 25, 40]), offset=rng.randrange(40))
+                  schedule, block=rng.choice([7, 13, 25, 40]), offset=rng.randrange(40), line_mode=line_mode)
     r.run()
+    run_once.memo_points = dict(r.memo_points)
     fp1 = sched.fingerprint()[0]
     if cold:
         # first use is over: running the same calls again (sequentially) must not change the shared state any more
@@ -172,7 +173,8 @@ def run(tier):
         for r in (r1, r2):
             if r.violated:
                 out.drift.append('Threads spec violates %s' % r.violated)
-        va, vb = rng.sample(VERSIONS, 2)
+        # one version from each side of the 3.8 split (the token patterns differ there), in random thread order
+        va, vb = rng.choice(VERSIONS[:2]), rng.choice(VERSIONS[2:])
         calls = [[v, x] for v in (va, vb) for x in TEXTS]
         fresh = oracle(calls)
         traces = []
@@ -191,6 +193,30 @@ def run(tier):
             # a warm run may have more versions loaded than its own: the reference is taken right before it
             fp_ref = '' if cold else sched.fingerprint()[0]
             traces.append(run_once(i + 1, progs, s, cold, fresh, fp_ref, rng))
+        # first-use races at LINE granularity: thread 1 is stopped before its n-th yield point inside the memoisation
+        # functions (every call and every line of load_grammar / _get_token_collection), thread 2 then runs its whole
+        # program, thread 1 resumes - for every n, from a cold state, same version and two versions, both orders
+        BIG = 10 ** 6
+        nline = 0
+        for same in (True, False):
+            for first in (1, 2):
+                if same and first == 2:
+                    continue                      # symmetric: both threads use the same version
+                other = 3 - first
+                progs = {1: (va, TEXTS[0]), 2: (va if same else vb, TEXTS[2])}
+                probe = run_once(0, progs, [(first, BIG)], True, fresh, '', rng, line_mode=True)
+                total = min(run_once.memo_points.get(first, 0), 120)
+                ns = list(range(1, total + 1))
+                if tier == 'quick' and not same and len(ns) > 12:
+                    ns = sorted(rng.sample(ns, 12))   # quick: every point for one version, a sample for two
+                for n_ in ns:
+                    nline += 1
+                    t = run_once(300000 + nline, progs, [(first, n_), (other, BIG), (first, BIG)], True, fresh, '', rng,
+                                 line_mode=True)
+                    t['schedule'] = ['line-mode', 'thread %d stopped before point %d of %d' % (first, n_, total),
+                                     'same version' if same else 'two versions']
+                    traces.append(t)
+        out.cov(line_granularity_runs=nline)
         # sequential first-use orders of three grammar versions, each call after a prefix of other calls
         vs3 = rng.sample(VERSIONS, 3)
         fresh3 = oracle([[v, x] for v in vs3 for x in TEXTS])
